@@ -1,41 +1,57 @@
-"""C15 finding config-values-unchecked: --config values are neither converted nor type-checked.
-Run with PYTHONPATH=/repo.  Exit 1 while the defect is present."""
+"""C15 finding config-values-unchecked (repaired): values passed through --config (the `ford` command
+line, i.e. ford.initialize) are converted and checked against the declared type like those of the
+project file and of fpm.toml: graph = 'maybe' is rejected with a message naming graph (as
+`graph: maybe` is), max_frontpage_items = '4' gives the integer 4.
+Regression witness.  Run with PYTHONPATH=<repo>.  Exit 1 while the defect is present."""
 import contextlib, io, os, pathlib, shutil, sys, tempfile
 os.environ["FORD_DEBUGGING"] = "1"
 import ford
 
 
-def effective(md="", toml=None, config=None, cwd_elsewhere=False, files=()):
-    """ford.load_settings + ford.parse_arguments on a scratch project; returns the settings object
-    or the exception"""
+def command_line(md="", toml=None, config=None):
+    """the `ford` command line (ford.initialize) on a scratch project: the settings object or the exception"""
     root = pathlib.Path(os.path.realpath(tempfile.mkdtemp(prefix="c15demo_")))
-    proj, other = root / "p", root / "w"
-    proj.mkdir(); other.mkdir()
-    (proj / "proj.md").write_text(md)
+    (root / "proj.md").write_text(md)
     if toml is not None:
-        (proj / "fpm.toml").write_text(toml)
-    for rel in files:
-        (proj / rel).parent.mkdir(parents=True, exist_ok=True)
-        (proj / rel).write_text("module m_%s\nend module\n" % pathlib.Path(rel).stem)
-    old = os.getcwd()
-    os.chdir(other if cwd_elsewhere else proj)
-    directory = "../p" if cwd_elsewhere else ""
+        (root / "fpm.toml").write_text(toml)
+    old, argv = os.getcwd(), sys.argv
+    os.chdir(root)
+    sys.argv = ["ford", "proj.md"] + ([f"--config={config}"] if config else [])
     try:
-        with contextlib.redirect_stdout(io.StringIO()) as out:
-            docs, settings = ford.load_settings(md, directory, "proj.md")
-            settings, docs = ford.parse_arguments({"project_file": None, "config": config}, docs, settings, directory)
-            extra = CALLBACK(settings, proj) if CALLBACK else None
-        return settings, out.getvalue(), extra
-    except BaseException as e:  # noqa
-        return e, "", None
+        with contextlib.redirect_stdout(io.StringIO()), contextlib.redirect_stderr(io.StringIO()):
+            settings, _ = ford.initialize()
+        return settings
+    except BaseException as e:  # noqa -- the exception is the outcome
+        return e
     finally:
         os.chdir(old)
+        sys.argv = argv
         shutil.rmtree(root)
 
 
-CALLBACK = None
+def show(label, r, *names):
+    if isinstance(r, BaseException):
+        print(f"{label:52} -> {type(r).__name__}: {r}")
+    else:
+        print(f"{label:52} -> accepted: " + ", ".join(f"{n} = {getattr(r, n)!r}" for n in names))
 
-c, _, _ = effective(md="preprocess: false\n", config="graph = 'maybe'; max_frontpage_items = '4'")
-print("--config graph = 'maybe'; max_frontpage_items = '4'  ->", repr(getattr(c, "graph", c)), repr(getattr(c, "max_frontpage_items", c)))
-ok = isinstance(c, BaseException) or (isinstance(c.graph, bool) and c.max_frontpage_items == 4)
+
+def rejected_naming(r, name):
+    return isinstance(r, BaseException) and f"'{name}'" in str(r)
+
+
+a = command_line(config="preprocess = false; graph = 'maybe'")
+m = command_line(md="preprocess: false\ngraph: maybe\n")
+b = command_line(config="preprocess = false; max_frontpage_items = '4'; warn = 'True'")
+c = command_line(config="preprocess = false; project = 5")
+d = command_line(config="preprocess = false; graph = 3")
+show("--config  graph = 'maybe'", a, "graph")
+show("markdown  graph: maybe", m, "graph")
+show("--config  max_frontpage_items = '4'; warn = 'True'", b, "max_frontpage_items", "warn")
+show("--config  project = 5", c, "project")
+show("--config  graph = 3", d, "graph")
+ok = (rejected_naming(a, "graph") and rejected_naming(m, "graph")
+      and not isinstance(b, BaseException) and b.max_frontpage_items == 4 and type(b.max_frontpage_items) is int
+      and b.warn is True
+      and rejected_naming(c, "project") and rejected_naming(d, "graph"))
 sys.exit(0 if ok else 1)
